@@ -373,13 +373,18 @@ TOpenDowngrade ==
 
 TClose == OpLine("CLOSE") /\ IF CanOp THEN Close(Line.x, SidOf(Line.sid)) /\ verdict' = Status("CLOSE") ELSE NoStep
 
-\* The byte at offset 2^64-1.  The reference refuses requests for exactly
-\* that byte, but a server may accept them: then (MRk) the reference follows
-\* and the byte is kept as ghost state (lastb), judged like any other byte:
-\* two different owners must not both be granted it unless both locks are
-\* shared.  A range through end of file (length all ones) covers it too.
+\* The byte at offset 2^64-1.  The lockable offsets are 0 .. 2^64-2: an
+\* explicit range cannot end beyond 2^64-2, and with exclusive end offsets
+\* [x, 2^64-1) and "x through end of file" are the same table entry, so
+\* "through end of file" means through offset 2^64-2 and never involves the
+\* byte at 2^64-1.  Only a request that STARTS at 2^64-1 addresses that byte.
+\* The reference refuses it (any error code of the server is fine); a server
+\* may accept it: then (MRk) the reference follows and the byte is kept as
+\* ghost state (lastb), judged like any other byte: two different owners must
+\* not both be granted it unless both locks are shared, and a lock test must
+\* not report "no conflict" against another owner's conflicting lock on it.
 MRk == IF Line.rk = "last" /\ Line.st = "OK" THEN "lastok" ELSE Line.rk
-CoversLast == Line.rk = "last" \/ (Line.rk = "range" /\ Line.e = N)
+CoversLast == Line.rk = "last"
 LStats == LET a == IncIf(Line.st = "DENIED", "denied_replies")
               b == IF Line.rk \in {"last", "last1"} THEN [a EXCEPT !.last_byte_requests = @ + 1] ELSE a
           IN IF Line.rk = "last" /\ LiveLast # {} THEN [b EXCEPT !.last_byte_held_by_other = @ + 1] ELSE b
@@ -420,7 +425,16 @@ TLock ==
     ELSE NoStep /\ UNCHANGED lastb
 
 TLockT == IsEvent("LOCKT") /\ KeepS /\ stats' = LStats /\
-            IF CanOp THEN LockTest(Line.x, Line.lt, MRk, Line.s, Line.e, Line.lo) /\ verdict' = Denied("LOCKT") ELSE NoStep
+            IF CanOp THEN
+              /\ LockTest(Line.x, Line.lt, MRk, Line.s, Line.e, Line.lo)
+              /\ verdict' =
+                   IF /\ Line.rk = "last" /\ Line.st = "OK" /\ reply'.st = "OK"
+                      /\ \E h \in LiveLast : /\ h.f = cx[Line.x].fh
+                                             /\ ~(h.i = cx[Line.x].i /\ h.lo = Line.lo)
+                                             /\ (h.t = "X" \/ LockT(Line.lt) = "X")
+                   THEN "C20:lock-test-reports-no-conflict-on-the-very-last-byte-held-by-another-owner"
+                   ELSE Denied("LOCKT")
+            ELSE NoStep
 
 TLockU ==
   IsEvent("LOCKU") /\ UNCHANGED <<expect, lastk, nonconf, pleafnc, argh, oldalt>> /\ stats' = LStats /\
